@@ -303,7 +303,7 @@ fn main() {
     let mut rep = Report::new();
     let cfg = GenCfg { comment_chance: (2, 5), max_params: 4, absent: (1, 5), ..GenCfg::default() };
     let nocom = GenCfg { comments: maps::CommentClass::None, ..cfg.clone() };
-    let n = ctx.tier.pick(30_000, 600_000);
+    let n = ctx.tier.pick(150_000, 600_000);
     run_cases(&ctx, &replay, &mut rep, "join", n, |rng, rep, i| join_case(rng, rep, if i % 6 == 5 { &nocom } else { &cfg }));
     run_cases(&ctx, &replay, &mut rep, "conflict", n / 2, |rng, rep, _| conflict_case(rng, rep, &cfg));
     let mut meta = Meta::new("exploration",
